@@ -193,6 +193,46 @@ func runC01(r *ev.Run) {
 	r.Set("u2_roots", len(roots))
 	r.Set("u2_depth", depth)
 	r.Set("u2_nodes", u2nodes.Load())
+
+	// --- long reversible lines: positions reached by many moves (clocks far
+	// beyond 100, rights kept alive), playable set compared after every ply ---
+	var longPlies atomic.Int64
+	longRoots := []string{
+		"rn2k2r/8/8/8/8/8/8/RN2K2R w KQkq - 95 1",
+		"rn2k2r/pppppppp/8/8/8/8/PPPPPPPP/RN2K2R b KQkq - 80 10",
+		"4k2n/8/8/8/8/8/8/N3K3 w - - 100 40",
+	}
+	plies := ev.Pick(r, 70, 220)
+	ev.Parallel(len(longRoots), func(worker, item int) {
+		fen := longRoots[item]
+		p := refchess.MustFEN(fen)
+		b := eng.Load(&p)
+		ms := move.NewStore()
+		var played []string
+		for i := 0; i < plies; i++ {
+			var buf [256]refchess.Move
+			var pick *refchess.Move
+			lm := p.LegalMoves(buf[:0])
+			for k := range lm {
+				m := lm[(k+i*5)%len(lm)]
+				if p.Sq[m.To] == 0 && (p.Sq[m.From] == refchess.Knight || p.Sq[m.From] == -refchess.Knight) {
+					pick = &m
+					break
+				}
+			}
+			if pick == nil {
+				break
+			}
+			b.MakeMove(move.Move(pick.Enc()))
+			p = p.Make(*pick)
+			played = append(played, pick.String())
+			longPlies.Add(1)
+			snap := append([]string(nil), played...)
+			check(ms, b, &p, func() c01Case { return c01Case{FEN: fen, Moves: snap, How: "played"} })
+			stat(&p)
+		}
+	})
+	r.Set("long_line_plies", longPlies.Load())
 	r.States.Store(positions.Load())
 	r.Transitions.Store(moves.Load())
 	r.Validated.Store(moves.Load())
